@@ -716,10 +716,6 @@ def step (w : World K) : Op K → World K × Except Err (Obs K)
         match gatherAll rtol atol s0.times (it0.map (fun r => [(r.2.1, r.2.2)])) rest with
         | .error e => (w, .error e)
         | .ok data =>
-          -- numpy broadcasting of the time lists lets storages with fewer frames through; the
-          -- result is then ragged (frames of different shapes) - outside the model (`bad`)
-          if data.any (fun d => d.length ≠ rest.length + 1) then (w, .error .bad)
-          else
           -- `fields = [FieldCollection(d, label=label) for d in data]`
           match data.mapM (fun d => collInfo label (d.map (·.1))) with
           | .error e => (w, .error e)
@@ -730,6 +726,10 @@ def step (w : World K) : Op K → World K × Except Err (Obs K)
             | [] => (w, .error .index)
             | fi0 :: more =>
               if more.any (fun fi => fi.grid ≠ fi0.grid) then (w, .error .value)
+              -- numpy broadcasting of the time lists lets storages with fewer frames through; the
+              -- result is then ragged (frames of different shapes, some unreadable) - outside the
+              -- model (`bad`)
+              else if data.any (fun d => d.length ≠ rest.length + 1) then (w, .error .bad)
               else
                 let newVals : List (List K) := data.map (fun d => (d.map (fun p => w.deref p.2)).flatten)
                 match construct s0.times (List.range' w.heap.length newVals.length) (some fi0)
